@@ -11,6 +11,7 @@ var regionEntries = map[string][]string{
 		"consensus.(*electionManager).*", "consensus.(*electionAlgorithm).*", "consensus.(*points).*", "consensus.(*consensus).VerifyMomentumProducer", "consensus.(*consensus).GetMomentumProducer",
 		"chain/genesis.NewGenesis", "common/db.PatchHash",
 	},
+	"PRODUCER": {"vm.(*Supervisor).GenerateAutoReceive"},
 	"ELECTION": {
 		"consensus.(*electionManager).*", "consensus.(*electionAlgorithm).*", "consensus.(*consensus).VerifyMomentumProducer", "consensus.(*consensus).GetMomentumProducer",
 		"chain/momentum.(*momentumStore).ComputePillarDelegations", "consensus.generateProducers", "consensus.genElectionResult",
